@@ -731,12 +731,14 @@ struct FnEmitter {
       if (B->hasNoReturnElement()) b.boolean("noreturn", true);
       std::vector<std::string> elems;
       int last = -2;
+      int lastStmtNode = -1;
       for (const CFGElement& E : *B) {
         JObj e;
         if (auto S = E.getAs<CFGStmt>()) {
           int n = lookup(S->getStmt());
           if (n < 0 || n == last) continue;
           last = n;
+          lastStmtNode = n;
           e.num("n", n);
         } else if (auto I = E.getAs<CFGInitializer>()) {
           const CXXCtorInitializer* CI = I->getInitializer();
@@ -845,7 +847,15 @@ struct FnEmitter {
             E = S2;
             break;
           }
-          if (E) t.num("cond", lookup(E));
+          // The reduction is only right when this block really evaluated that
+          // operand last (short-circuit wiring).  When the whole logical
+          // expression was evaluated as a value (e.g. under ExprWithCleanups)
+          // this block is a join and the condition is the full expression.
+          int reduced = E ? lookup(E) : -1;
+          int full = lookup(Cond);
+          if (reduced >= 0 && reduced != full && reduced != lastStmtNode) reduced = full;
+          if (reduced >= 0) t.num("cond", reduced);
+          else if (full >= 0) t.num("cond", full);
         }
         if (auto* TS = dyn_cast<CXXTryStmt>(T)) {
           auto it = tryIds.find(TS);
